@@ -686,7 +686,7 @@ def stream_emit(ctx: Ctx) -> Stream:
 	tr = cxx.Transpiler(ctx.tmpdir())
 	forced = forced_pairs(rng)
 	items = list(forced)
-	depth = ctx.scale(6, 10)
+	depth = ctx.scale(6, 8)
 	for i in range(ctx.scale(300, 2000)):
 		items.append(('random', ot_gen(rng, rng.choice([T_INT, T_INT, T_BOOL, T_BOOL, T_FLOAT]), 1 + i % depth, mixed=i % 4 == 3)))
 	cases = []
